@@ -3,21 +3,24 @@ import json
 
 ID = "C11"
 HARNESS_TEST = "TestC11.*"
-COQ_MODEL = ["C11/Check.v"]
+GEN = "c11"
+COQ_MODEL = ["C11/Check.v", "C11/Sites.v", "Gen/C11Facts.v"]
 COQ_PROOF_DEPS = ["C11/Proofs.v", "C11/Examples.v"]
-COQ_OBLIG = ["C11/Property.v"]
+COQ_OBLIG = ["C11/Property.v", "Gen/C11Oblig.v"]
 CASES_HEADER = "Require Import Nib.C11.Model Nib.C11.Spec Nib.C11.Check."
 CASE_TYPE = "case"
 MISMATCH_FN = "mismatch"
 VIOLATES_FN = "violates"
-RULE = ("a case = one history (13-120 events) of oracle messages run on the real msg server of a NibiruTestApp at explicit "
+RULE = ("TestC11: a case = one history (13-130 events) of oracle messages run on the real msg server of a NibiruTestApp at explicit "
         "block heights around vote-period boundaries: prevotes (honest / upper-case hex / hash without validator / hash "
         "copied from another validator / garbage), votes (matching reveal, wrong salt, textually different but "
         "equal-parsing rates, other rates, unparsable or non-whitelisted rates), feeder delegations, VotePeriod / "
         "whitelist edits by the sudo root or a stranger, jail / unjail / create validator, EndBlocker per height, "
         "messages with broken addresses; senders = validator, current delegate, former delegate, stranger, other "
         "validator. non-trivial = the history has an accepted vote AND a vote refused for period / hash / feeder / "
-        "not-bonded / no-prevote / unknown-pair; distinct = distinct input")
+        "not-bonded / no-prevote / unknown-pair (or, tx level, for a foreign signature); distinct = distinct input. "
+        "TestC11Tx: the same messages as signed transactions through BeginBlock/DeliverTx/EndBlock/Commit, the signing "
+        "key chosen independently of the feeder / operator field. corpus/C11: 56 attack shapes for VotePeriod 1,2,3,5")
 ASSUMPTIONS = [
     "the msg.Feeder / msg.Operator field is the authenticated signer (GetSigners is checked by the driver; signature "
     "verification itself is the SDK ante handler)",
@@ -28,6 +31,9 @@ ASSUMPTIONS = [
     "checked on every generated table)",
 ]
 TRUSTED = [
+    "harness/gen/c11: go/ast inventory of writers of Prevotes / Votes / FeederDelegations / oracle Params and of callers of "
+    "the handlers (non-test code under x/, app/, eth/, cmd/; test_utils.go, testutil, simulation, *.pb.go excluded); "
+    "coq/C11/Sites.v maps each allowed writer to the model handler standing for it",
     "reference hash = crypto/sha256 of salt:rates:valoper computed by the driver (not the repo's GetAggregateVoteHash)",
 ]
 
@@ -268,7 +274,10 @@ MANIFEST = {
                  "EndBlocker of a NibiruTestApp and comparing accept/reject, error class and the Prevotes / Votes / "
                  "FeederDelegations stores and VotePeriod after every message; the proved-sound checker Pb (the property as a "
                  "predicate on traces, which every model trace satisfies: C11_model_traces_satisfy_P) is evaluated on the "
-                 "implementation traces themselves."),
+                 "implementation traces themselves. A second driver sends the messages as signed transactions through "
+                 "DeliverTx with foreign signers. Generated facts (Gen/C11Facts.v, re-extracted each run) + "
+                 "C11_store_writers_are_the_modelled_ones / C11_handlers_reached_only_as_modelled: no other code writes "
+                 "the commit-reveal stores or calls the handlers."),
         "design_ref": "DESIGN.md §5 C11",
     },
     "level_note": ("Trusted: Coq kernel + vm_compute; the Go driver (canonical ids, its own SHA-256 reference hash, error "
